@@ -393,7 +393,20 @@ impl Scenario for C17Bridge {
         let own = |f: Frame<'_>| -> Frame<'static> { Frame::new(f.address(), f.message_type(), gens::data(f.data().to_vec())) };
         // A shadow model steers the traffic so that the sign actually answers.
         let mut shadow = crate::models::sign::SignModel::new(signs[0].0, signs[0].1);
-        for _ in 0..nlines {
+        // now and then one very long transfer through the bridge: more than 64 KiB of chunk data
+        // between two counts (a 160x16 sign with a couple of hundred pages)
+        let marathon = cx.chance(1, 5000);
+        if marathon {
+            cx.probe("transfer_of_more_than_64k_through_the_bridge");
+            let chunks = 4100 + cx.draw(300);
+            for k in 0..chunks {
+                let f = own(Frame::from(Message::SendData(flipdot_core::Offset(16 * (k % 21) as u16), gens::data(gens::payload(cx, 16)))));
+                lines.push((f.to_bytes_with_newline(), "known", Some(Some(f))));
+            }
+            let f = own(Frame::from(Message::DataChunksSent(flipdot_core::ChunkCount(chunks as u16))));
+            lines.push((f.to_bytes_with_newline(), "known", Some(Some(f))));
+        }
+        for _ in 0..(if marathon { 0 } else { nlines }) {
             match cx.draw(8) {
                 0..=3 => {
                     let m = aware_message(cx, &shadow);
